@@ -965,13 +965,11 @@ Theorem identity_without_specials : forall data p,
   forallb (stmt_ok clean plain_filters) p = true -> clean_data data = true ->
   run_escape {| e_ae := true; e_data := data; e_prog := p |} = run_escape {| e_ae := false; e_data := data; e_prog := p |}.
 Proof.
-  intros data p Hp Hd. unfold run_escape. simpl.
-  pose proof (exec_rel 200 {| st_scopes := []; st_locals := []; st_globals := data; st_cycle := 0 |}
-                           {| st_scopes := []; st_locals := []; st_globals := data; st_cycle := 0 |} p Hp) as H.
-  assert (Hst : Rstate {| st_scopes := []; st_locals := []; st_globals := data; st_cycle := 0 |}
-                       {| st_scopes := []; st_locals := []; st_globals := data; st_cycle := 0 |}).
-  { repeat split; simpl; try constructor. apply Rscope_refl. assumption. }
-  specialize (H Hst).
-  destruct (exec true 200 _ p) as [[o s]|e|], (exec false 200 _ p) as [[o' s']|e'|]; simpl in *; try contradiction; auto.
+  intros data p Hp Hd. unfold run_escape. cbn [e_ae e_data e_prog].
+  set (s0 := {| st_scopes := []; st_locals := []; st_globals := data; st_cycle := 0 |}).
+  assert (Hst : Rstate s0 s0).
+  { unfold s0. repeat split; cbn [st_scopes st_locals st_globals st_cycle]; try constructor. apply Rscope_refl. assumption. }
+  pose proof (exec_rel 200 s0 s0 p Hp Hst) as H.
+  destruct (exec true 200 s0 p) as [[o s]|e|]; destruct (exec false 200 s0 p) as [[o' s']|e'|]; unfold Rres in H; try contradiction; auto.
   destruct H as (-> & _). reflexivity.
 Qed.
